@@ -20,9 +20,12 @@ func init() { register("c14", checkC14) }
 // c14Program: h handles, d reads/writes, every handle closed inside the pipeline.
 // layout: tail (all closes at the end) | grouped (each handle: its requests, then its CLOSE) |
 // mixed (requests of all handles shuffled, each CLOSE right after the last request of its handle).
-func c14Program(rng *rand.Rand, server string, h, d int, layout string) gProg {
-	p := gProg{Server: server}
+func c14Program(rng *rand.Rand, server string, opt c14Opt, h, d int, layout string) gProg {
+	p := opt.prog(server)
 	kinds := []string{"get", "put", "rw"}
+	if opt.ReadOnly {
+		kinds = []string{"get", "get", "get"} // a read-only server refuses every other open
+	}
 	files := map[string]string{"get": "f", "put": "g", "rw": "x"}
 	for i := 0; i < h; i++ {
 		k := kinds[rng.Intn(3)]
@@ -47,6 +50,9 @@ func c14Program(rng *rand.Rand, server string, h, d int, layout string) gProg {
 		if read {
 			k := nr[hi]
 			nr[hi]++
+			if rng.Intn(12) == 0 { // longer than a default server's longest DATA payload (objects have 100000 bytes or more)
+				return gOp{K: "read", H: hd.Name, Off: int64(k) * 2111, Len: []uint32{32768, 32769, 40000}[rng.Intn(3)]}
+			}
 			return gOp{K: "read", H: hd.Name, Off: int64(k) * 2111, Len: ln % 2048} // stays below 65536 for 24 reads
 		}
 		k := nw[hi]
@@ -108,16 +114,21 @@ type c14Verdict struct {
 	inflight int   // largest number of earlier reads/writes in flight at a Close entry
 }
 
-// c14Check evaluates the close barrier on the call log of a run.
-func c14Check(run *gRun) c14Verdict {
+// c14Check evaluates the close barrier on the call log of a run. input is what failures carry for replay.
+func c14Check(run *gRun, input any) c14Verdict {
 	var v c14Verdict
 	cs := run.Case
 	p := cs.Prog
 	srv := p.Server
+	opts := " (server options: " + c14OptOf(p).text() + ")"
 	fail := func(key, what string, exp, act any) {
-		v.fails = append(v.fails, lib.Failure{Kind: "oracle", Key: key, What: what, Input: cs, Expected: exp, Actual: act})
+		v.fails = append(v.fails, lib.Failure{Kind: "oracle", Key: key, What: what + opts, Input: input, Expected: exp, Actual: act})
 	}
-	v.fails = append(v.fails, gCheckCommon(run)...)
+	for _, f := range gCheckCommon(run) {
+		f.Input = input
+		f.What += opts
+		v.fails = append(v.fails, f)
+	}
 	if run.Fault != nil {
 		return v
 	}
@@ -167,10 +178,14 @@ func c14Check(run *gRun) c14Verdict {
 			G := byKey[keyOf(j)]
 			switch {
 			case G.Start > C.Start:
-				late = append(late, p.Ops[j].text())
+				if len(late) < 20 {
+					late = append(late, p.Ops[j].text())
+				}
 			case G.Fin > C.Start:
 				inflight++
-				running = append(running, p.Ops[j].text())
+				if len(running) < 20 {
+					running = append(running, p.Ops[j].text())
+				}
 			}
 		}
 		if inflight > v.inflight {
@@ -184,6 +199,7 @@ func c14Check(run *gRun) c14Verdict {
 		}
 	}
 	// every request of the stream succeeds
+	nfailed := 0
 	for i, o := range p.Ops {
 		f := run.Frames[i]
 		ok := false
@@ -194,7 +210,9 @@ func c14Check(run *gRun) c14Verdict {
 			ok = f.Typ == wire.Status && gParseStatus(f).Code == wire.OK
 		}
 		if !ok {
-			fail("close/request-failed/"+srv, fmt.Sprintf("request %d (%s), sent before the CLOSE of its handle, did not succeed", i, o.text()), "success", gFrameText(f))
+			if nfailed++; nfailed <= 5 {
+				fail("close/request-failed/"+srv, fmt.Sprintf("request %d (%s), sent before the CLOSE of its handle, did not succeed", i, o.text()), "success", gFrameText(f))
+			}
 		}
 	}
 	for _, h := range p.Handles {
@@ -222,7 +240,8 @@ func c14ReplayTrace(run *gRun, observed []int) (trace string, handled []int, err
 	s := newSim(reqs)
 	for k, i := range observed {
 		if !s.isStarted(i) {
-			return "", nil, fmt.Errorf("call of request %d returned as number %d, but with the earlier returns %v the pipeline cannot have started it (running: %v)", i, k, observed[:k], s.started())
+			lo := max(0, k-12)
+			return "", nil, fmt.Errorf("call of request %d returned as number %d, but with the earlier returns (…%v) the pipeline cannot have started it (running: %v)", i, k, observed[lo:k], s.started())
 		}
 		s.finish(i)
 	}
@@ -242,17 +261,53 @@ func oidText(ix []int) string {
 
 func init() {
 	gSummarisers["c14"] = func(raw json.RawMessage, modelOK bool, scratch string) gSummary {
-		var cs gCase
-		if err := json.Unmarshal(raw, &cs); err != nil {
+		var job c14Job
+		if err := json.Unmarshal(raw, &job); err != nil {
 			return gSummary{Text: string(raw), Fails: []lib.Failure{{Kind: "tie", Key: "harness/job", What: err.Error()}}}
 		}
-		return c14Summarise(gExec(&cs), modelOK)
+		return c14Summarise(job, modelOK)
 	}
 }
 
-func c14Summarise(run *gRun, modelOK bool) gSummary {
+// c14ModelMaxOps: schedules of pipelines up to this length are also replayed in the Lean model.
+const c14ModelMaxOps = 300
+
+// c14DepthBucket: the depths of c14Depths each have a bucket of their own, the values in between share one.
+func c14DepthBucket(prefix string, n int) string {
+	lo := 0
+	for _, d := range c14AllDepths {
+		if d == n {
+			return fmt.Sprintf("%s=%05d", prefix, n)
+		}
+		if d < n && d > lo {
+			lo = d
+		}
+	}
+	hi := n
+	for _, d := range c14AllDepths {
+		if d > n && (hi == n || d < hi) {
+			hi = d
+		}
+	}
+	return fmt.Sprintf("%s=%05d<n<%05d", prefix, lo, hi)
+}
+
+var c14AllDepths = c14Depths(1 << 17)
+
+func c14Summarise(job c14Job, modelOK bool) gSummary {
 	var s gSummary
-	cs := run.Case
+	cs := job.gCase
+	deep := job.Gen != nil
+	if deep {
+		if err := job.Gen.valid(); err != nil {
+			return gSummary{Text: fmt.Sprint(job.input()), Fails: []lib.Failure{{Kind: "tie", Key: "harness/job", What: err.Error()}}}
+		}
+		cs.Prog, cs.Hold = job.Gen.expand()
+		if cs.Mode != "gated" {
+			cs.Hold = nil
+		}
+	}
+	run := gExec(&cs)
 	p := cs.Prog
 	nrw := 0
 	for _, o := range p.Ops {
@@ -260,55 +315,88 @@ func c14Summarise(run *gRun, modelOK bool) gSummary {
 			nrw++
 		}
 	}
-	s.Text = p.text() + fmt.Sprint(cs.Order, cs.Mode, cs.Seed)
-	s.Nontrivial = true
 	hist := func(k string) { s.Hist = append(s.Hist, k) }
+	if deep {
+		s.Text = job.Gen.text() + fmt.Sprint(cs.Order, cs.Mode, cs.Seed)
+		s.Nontrivial = nrw > 0
+		total := 0
+		for _, n := range job.Gen.Segs {
+			hist(c14DepthBucket("deep/rw-requests-since-previous-close", n))
+			total += n
+			if len(job.Gen.Segs) > 1 {
+				hist(c14DepthBucket("deep/rw-requests-since-start-at-close", total))
+			}
+		}
+		if cs.Mode == "gated" {
+			hist(fmt.Sprintf("deep/calls-held-before-each-close=%d", job.Gen.Held))
+		}
+		hist(fmt.Sprintf("deep/closes=%d", len(job.Gen.Segs)))
+		hist("deep/server=" + p.Server)
+	} else {
+		s.Text = p.text() + fmt.Sprint(cs.Order, cs.Mode, cs.Seed)
+		s.Nontrivial = true
+		hist(fmt.Sprintf("rw-depth=%02d", nrw))
+		for _, o := range p.Ops {
+			hist("request=" + o.K)
+		}
+	}
 	hist("server=" + p.Server)
-	hist(fmt.Sprintf("rw-depth=%02d", nrw))
+	hist("options=" + p.Server + "/" + c14OptOf(p).text())
 	hist(fmt.Sprintf("handles=%d", len(p.Handles)))
 	hist("mode=" + cs.Mode + "/" + cs.Tag)
 	for _, h := range p.Handles {
 		hist("handle-kind=" + h.Kind)
 	}
-	for _, o := range p.Ops {
-		hist("request=" + o.K)
-	}
-	v := c14Check(run)
+	v := c14Check(run, job.input())
 	s.Fails = v.fails
 	if run.Fault != nil || len(v.observed) != len(p.Ops) {
 		return s
 	}
 	hist(fmt.Sprintf("max-earlier-calls-in-flight-at-close-entry=%d", v.inflight))
-	if cs.Mode == "gated" && nrw >= 5 && nrw <= 10 && len(p.Handles) >= 2 {
+	if cs.Mode == "gated" && !deep && nrw >= 5 && nrw <= 10 && len(p.Handles) >= 2 {
 		s.Sample = map[string]any{"program": p.text(), "order_in_which_gates_were_opened": cs.Order, "observed_completion_order_of_all_calls": v.observed, "model_trace": run.Trace}
+	}
+	if deep && cs.Mode == "gated" && nrw >= 255 && nrw <= 257 {
+		s.Sample = map[string]any{"deep_pipeline": job.Gen, "requests_whose_calls_were_held": cs.Hold, "order_in_which_gates_were_opened": cs.Order}
 	}
 	// the schedule as a model trace
 	trace := run.Trace
-	if cs.Mode == "gated" {
+	if cs.Mode == "gated" && cs.Hold == nil {
 		// the forced order must be what the log shows (Close calls return on their own, in between)
 		if fmt.Sprint(v.observed) != fmt.Sprint(run.Handled) {
 			s.Fails = append(s.Fails, lib.Failure{Kind: "oracle", Key: "close/completion-order-differs/" + p.Server, What: "calls returned in an order different from the one the pipeline allows for the gates opened",
-				Input: cs, Expected: run.Handled, Actual: v.observed})
+				Input: job.input(), Expected: run.Handled, Actual: v.observed})
 			return s
 		}
 	} else {
+		// calls that were not held returned when they liked: the log must be a schedule the pipeline allows
 		t, _, err := c14ReplayTrace(run, v.observed)
 		if err != nil {
-			s.Fails = append(s.Fails, lib.Failure{Kind: "oracle", Key: "close/impossible-completion-order/" + p.Server, What: err.Error(), Input: cs, Actual: v.observed})
+			s.Fails = append(s.Fails, lib.Failure{Kind: "oracle", Key: "close/impossible-completion-order/" + p.Server, What: err.Error(), Input: job.input(), Actual: c14Short(v.observed)})
 			return s
 		}
 		trace = t
 	}
-	if modelOK {
+	if modelOK && len(p.Ops) <= c14ModelMaxOps {
 		s.Lines = []string{"c14.check " + c02Cfg + " " + trace, "c14.handled " + c02Cfg + " " + trace}
 		s.Impl = []string{"ok", oidText(v.observed)}
 	}
 	return s
 }
 
+func c14Short(ix []int) any {
+	if len(ix) <= 200 {
+		return ix
+	}
+	return fmt.Sprintf("%d calls, the first 200: %v", len(ix), ix[:200])
+}
+
 func checkC14(c *lib.Ctx) {
 	r := c.R
-	r.Rule = "pipelines of d = 1…24 READ/WRITE requests on h = 1…4 handles (read-only, write-only and read-write opens; layouts: all CLOSEs at the end, handle by handle, shuffled) followed by the CLOSEs without waiting for any reply, on both servers. Gated cases: every ReadAt/WriteAt is held; after the expected calls have started and a grace period of 25 ms the harness asserts that no Close was entered, then lets the calls return in a chosen order (all feasible orders for d <= 4 (quick) / 6 (thorough), PRNG orders: uniform, fifo, lifo, earliest-held-longest). Unforced cases: nothing is held, every call (Close too) sleeps a PRNG time below 1.5 ms, or not at all. Oracles on the global start/finish log: 0 earlier reads/writes in flight at every Close entry, none starts later, every request succeeds, final contents. non-trivial = at least one read/write precedes a CLOSE (always); distinct by (server, program, order or sleep seed)"
+	r.Rule = "Small pipelines: d = 1…24 READ/WRITE requests on h = 1…4 handles (read-only, write-only and read-write opens; layouts: all CLOSEs at the end, handle by handle, shuffled; one read in twelve longer than 32768 bytes) followed by the CLOSEs without waiting for any reply, on both servers. Gated cases: every ReadAt/WriteAt is held; after the expected calls have started and a grace period of 25 ms (again after every completed CLOSE while calls are held) the harness asserts that no Close was entered that the pipeline cannot have reached, then lets the calls return in a chosen order (all feasible orders for d <= 4 (quick) / 6 (thorough), PRNG orders: uniform, fifo, lifo, earliest-held-longest). Unforced cases: nothing is held, every call (Close too) sleeps a PRNG time below 1.5 ms, or not at all. " +
+		"Deep pipelines (generated, not written out): n READ/WRITE requests of 1…8 bytes between two CLOSEs for n = 0…20 and 2^k-1, 2^k, 2^k+1 (k = 5…10 quick, 5…16 thorough) and 767…769, 1535…1537, 3071…3073; one handle, or 2…4 handles closed one after the other with the boundary value as the count since the previous CLOSE or as the running total; gated: only the calls of the last 1…8 requests before each CLOSE are held (all earlier ones return on their own), grace period and chosen return order as above; unforced: sleep / free. " +
+		"Server options: every case runs on a server started with one of the 24 (os-backed: ReadOnly x WithAllocator x WithMaxTxPacket absent/32768/65536 x WithServerWorkingDirectory, handles then opened by relative names) resp. 12 (request server: WithRSAllocator x WithRSMaxTxPacket x WithStartDirectory) option combinations, dealt from a shuffled deck per family so that every family of cases meets every combination (read-only servers: read-only opens only); the depths 256 and 512 (thorough: 255, 256, 257, 512 and 65536) are run gated under every combination. Schedules of pipelines of up to 300 requests are also replayed in the Lean pipeline model. " +
+		"Oracles on the global start/finish log: no Close entered while calls of earlier requests are held, 0 earlier reads/writes in flight at every Close entry, none starts later, every request succeeds, final contents, the observed completion order is one the pipeline allows. non-trivial = at least one read/write precedes a CLOSE; distinct by (server, options, program or generator, order or sleep seed)"
 	thorough := c.Tier == "thorough"
 	c02Cfg = gCurCfg(c, "pipe", c02Cfg)
 	modelOK := gProbeModel(c, "c14.check "+c02Cfg+" -")
@@ -316,31 +404,35 @@ func checkC14(c *lib.Ctx) {
 		r.Skip("model comparison skipped: driver ops `c14.check` / `c14.handled` (lean/Sftp/Driver/C02.lean) are not served by the driver binary given with --model")
 	}
 	describe := func(raw json.RawMessage) (string, any) {
-		var cs gCase
-		json.Unmarshal(raw, &cs)
-		return cs.Prog.Server, cs
+		var job c14Job
+		json.Unmarshal(raw, &job)
+		if job.Gen != nil {
+			return job.Gen.Server, job.input()
+		}
+		return job.Prog.Server, job.input()
 	}
 	var jobs []json.RawMessage
 	if c.Replay != "" {
 		var in struct {
-			gCase
-			Case *gCase `json:"case"`
+			c14Job
+			Case *c14Job `json:"case"`
 		}
 		if err := lib.ReadReplay(c.Replay, &in); err != nil {
 			r.Fail(lib.Failure{Kind: "tie", Key: "replay", What: err.Error()})
 			return
 		}
-		cs := in.gCase
+		job := in.c14Job
 		if in.Case != nil {
-			cs = *in.Case
+			job = *in.Case
 		}
-		jobs = append(jobs, gJSON(cs))
+		jobs = append(jobs, gJSON(job))
 	} else {
 		grace := 25
 		styles := []string{"uniform", "fifo", "lifo", "first-last", "uniform", "uniform"}
 		layouts := []string{"tail", "grouped", "mixed"}
 		for _, server := range []string{"rs", "os"} {
 			// every (h, d)
+			deck := newC14Deck(c.Rand)
 			reps := 2
 			if thorough {
 				reps = 20
@@ -349,13 +441,14 @@ func checkC14(c *lib.Ctx) {
 				for d := 1; d <= 24; d++ {
 					for _, layout := range layouts {
 						for k := 0; k < reps; k++ {
-							p := c14Program(c.Rand, server, h, d, layout)
+							p := c14Program(c.Rand, server, deck.next(server), h, d, layout)
 							jobs = append(jobs, gJSON(gCase{Prog: p, Mode: "gated", Order: c02RandomOrder(p, c.Rand, styles[(k+d+h)%len(styles)]), Grace: grace, Tag: layout}))
 						}
 					}
 				}
 			}
 			// all orders of small pipelines
+			deck = newC14Deck(c.Rand)
 			maxD, progs := 4, 2
 			if thorough {
 				maxD, progs = 6, 4
@@ -367,22 +460,23 @@ func checkC14(c *lib.Ctx) {
 							if d == 6 && k > 0 {
 								continue
 							}
-							p := c14Program(c.Rand, server, h, d, layout)
+							p := c14Program(c.Rand, server, deck.next(server), h, d, layout)
 							ords, _ := c02Orders(p, 720)
 							for _, o := range ords {
-								jobs = append(jobs, gJSON(gCase{Prog: p, Mode: "gated", Order: o, Tag: "all-orders/" + layout}))
+								jobs = append(jobs, gJSON(gCase{Prog: p, Mode: "gated", Order: o, Watch: true, Tag: "all-orders/" + layout}))
 							}
 						}
 					}
 				}
 			}
 			// relative speeds left to the scheduler, with random handler durations
+			deck = newC14Deck(c.Rand)
 			nSleep := 600
 			if thorough {
 				nSleep = 30000
 			}
 			for k := 0; k < nSleep; k++ {
-				p := c14Program(c.Rand, server, 1+c.Rand.Intn(4), 1+c.Rand.Intn(24), layouts[c.Rand.Intn(3)])
+				p := c14Program(c.Rand, server, deck.next(server), 1+c.Rand.Intn(4), 1+c.Rand.Intn(24), layouts[c.Rand.Intn(3)])
 				mode := "sleep"
 				if k%5 == 4 {
 					mode = "free"
@@ -390,10 +484,113 @@ func checkC14(c *lib.Ctx) {
 				jobs = append(jobs, gJSON(gCase{Prog: p, Mode: mode, Seed: c.Rand.Int63(), Tag: "unforced"}))
 			}
 		}
+		jobs = append(jobs, c14DeepJobs(c.Rand, thorough, grace)...)
 	}
 	sums := gRunBatches(c, "c14", jobs, 2000, modelOK, describe)
 	lines, impl := gMerge(r, sums, 3)
 	if modelOK {
 		c.Compare("c14", lines, impl)
 	}
+}
+
+// c14DeepJobs generates the deep pipelines of a run.
+func c14DeepJobs(rng *rand.Rand, thorough bool, grace int) []json.RawMessage {
+	var jobs []json.RawMessage
+	styles := []string{"uniform", "fifo", "lifo", "first-last"}
+	gated := func(g c14Gen, tag string) {
+		p, hold := g.expand()
+		order := randomOrder(c14HeldReqs(p, hold), rng, styles[rng.Intn(len(styles))])
+		jobs = append(jobs, gJSON(c14Job{gCase: gCase{Mode: "gated", Order: order, Grace: grace, Tag: tag}, Gen: &g}))
+	}
+	unforced := func(g c14Gen, mode string) {
+		g.Held = 0
+		jobs = append(jobs, gJSON(c14Job{gCase: gCase{Mode: mode, Seed: rng.Int63(), Tag: "deep-unforced"}, Gen: &g}))
+	}
+	maxDepth, reps := 1025, 1
+	if thorough {
+		maxDepth, reps = 65537, 4
+	}
+	depths := c14Depths(maxDepth)
+	bounds := []int{255, 256, 257, 511, 512, 513}
+	if thorough {
+		for _, d := range depths {
+			if d > 513 {
+				bounds = append(bounds, d)
+			}
+		}
+	}
+	for _, server := range []string{"rs", "os"} {
+		// one handle, one CLOSE, every depth
+		deck := newC14Deck(rng)
+		for _, d := range depths {
+			n := reps
+			if d > 5000 {
+				n = 2
+			}
+			for k := 0; k < n; k++ {
+				opt := deck.next(server)
+				gated(c14Gen{Server: server, Opt: opt, Kinds: c14Kinds(rng, opt, 1), Segs: []int{d}, Held: 1 + rng.Intn(8), Seed: rng.Int63()}, "deep-one-close")
+			}
+		}
+		// several handles closed one after the other: the boundary value is the count since the previous CLOSE
+		// (every segment a boundary value, or one of them with short ones around it) or the running total
+		deck = newC14Deck(rng)
+		nMulti := 16
+		if thorough {
+			nMulti = 200
+		}
+		for k := 0; k < nMulti; k++ {
+			opt := deck.next(server)
+			h := 2 + rng.Intn(3)
+			b := bounds[rng.Intn(len(bounds))]
+			var segs []int
+			switch k % 4 {
+			case 0: // running total
+				segs = c14Split(rng, b, h)
+			case 1: // every segment
+				for i := 0; i < h; i++ {
+					segs = append(segs, bounds[rng.Intn(6)])
+				}
+			default: // one segment, at a PRNG position
+				for i := 0; i < h; i++ {
+					segs = append(segs, rng.Intn(12))
+				}
+				segs[rng.Intn(h)] = b
+			}
+			h = len(segs)
+			gated(c14Gen{Server: server, Opt: opt, Kinds: c14Kinds(rng, opt, h), Segs: segs, Spread: rng.Intn(2) == 0, Held: 1 + rng.Intn(8), Seed: rng.Int63()}, "deep-several-closes")
+		}
+		// every option combination at the depths where an 8-bit and (thorough) a 16-bit count come round
+		all := []int{256, 512}
+		if thorough {
+			all = []int{255, 256, 257, 512, 65536}
+		}
+		for _, d := range all {
+			for _, opt := range c14Opts(server) {
+				gated(c14Gen{Server: server, Opt: opt, Kinds: c14Kinds(rng, opt, 1), Segs: []int{d}, Held: 1 + rng.Intn(8), Seed: rng.Int63()}, "deep-all-options")
+			}
+		}
+		// nothing held
+		deck = newC14Deck(rng)
+		for _, d := range depths {
+			if d < 31 && !thorough {
+				continue
+			}
+			n := reps
+			if d > 5000 {
+				n = 1
+			}
+			for k := 0; k < n; k++ {
+				opt := deck.next(server)
+				h := 1 + rng.Intn(2)
+				mode := "sleep"
+				if d > 1100 || rng.Intn(3) == 0 {
+					mode = "free"
+				}
+				segs := c14Split(rng, d, h)
+				unforced(c14Gen{Server: server, Opt: opt, Kinds: c14Kinds(rng, opt, len(segs)), Segs: segs, Spread: rng.Intn(2) == 0, Seed: rng.Int63()}, mode)
+			}
+		}
+	}
+	return jobs
 }
